@@ -71,6 +71,11 @@ func VerifC06_Compare(cs int) {
 	if single {
 		VsClass("single-day-operand")
 	}
+	// 1 Jan 0001 is Go's zero time, which Date.Time() also uses as its
+	// "could not parse" value (see C05): keep that corner in its own class.
+	if VsAny(a == 0, b == 0, c == 0, d == 0) {
+		VsClass("touches-1-Jan-0001")
+	}
 	VsAssert("never-invalid", got != DateRangeComparisonInvalid)
 	VsAssert("documented-relation", vRelAllowed(got, a, b, c, d))
 
@@ -100,6 +105,9 @@ func VerifC06_Self(cs int) {
 	VsReach("self-compared")
 	if a == b {
 		VsClass("single-day")
+	}
+	if VsOr(a == 0, b == 0) {
+		VsClass("touches-1-Jan-0001")
 	}
 	VsAssert("self-equal", got == DateRangeComparisonEqual)
 	VsAssert("self-isequal", got.IsEqual())
